@@ -1176,9 +1176,13 @@ class CodeGenerator(StructuredCodeGenerator):
         sym_table = self.sym_kind_table.per_phase_table.get(
                 self.current_function, {})
 
+        # Release every local here, not only the never-used ones: a variable
+        # whose last use was skipped (because it sits in a guarded block that
+        # was not entered, or because a failed step or a phase switch jumped
+        # to the exit label first) is still allocated at this point. Releasing
+        # a variable that has already been released is a no-op.
         for identifier, sym_kind in sorted(sym_table.items()):
-            if (identifier, self.current_function) not in self.last_used_stmt_table:
-                self.emit_variable_deinit(identifier, sym_kind)
+            self.emit_variable_deinit(identifier, sym_kind)
 
         # }}}
 
